@@ -19,6 +19,7 @@ from tracklib.core.track import Track
 from tracklib.core.obs import Obs
 from tracklib.core.obs_coords import ENUCoords
 from tracklib.algo.dynamics import HMM, MODE_OBS_AS_SCALAR, MODE_VERBOSE_NONE
+from tracklib.algo.dynamics import MODE_OBS_AS_2D_POSITIONS, MODE_OBS_AS_3D_POSITIONS
 
 ID = "C09"
 LEVEL = "exploration"
@@ -38,6 +39,7 @@ ASSUMPTIONS = ["the model is handed over as documented by class HMM: S(track, k)
 N_VARIANTS = 4
 
 OBLIGATIONS = {
+    "every_observation_shape": "the observation was stored as a list of one, a list of two, a tuple, a string, a nested list, and read as a 2-D and as a 3-D position from two / three features (models of <= 2 epochs)",
     "tie": ">= 2 sequences attain the maximum likelihood (> 0)",
     "zero_likelihood_optimum": "every sequence has likelihood 0",
     "zero_avoided": "some sequence has likelihood 0 while the optimum is > 0",
@@ -137,20 +139,60 @@ def obs_code(variant, k):
     return alpha.const(variant, 10.0 + 3.0 * k)
 
 
+# "Observation y may be any value ... It may also be a list of values" (HMM docstring): the value stored at an epoch in
+# other shapes than a bare number.  The model must be handed exactly what the track holds.
+OBS_FORMS = ["number", "list-of-one", "list-of-two", "tuple-of-one", "string", "nested-list", "position-2d", "position-3d"]
+# position-2d / -3d: the observation is read from two / three features and handed to the model as a coordinate object
+# (MODE_OBS_AS_2D_POSITIONS: "Z component is set to 0"; MODE_OBS_AS_3D_POSITIONS: all three)
+POSITION_FORMS = {"position-2d": (["ox", "oy"], MODE_OBS_AS_2D_POSITIONS), "position-3d": (["ox", "oy", "oz"], MODE_OBS_AS_3D_POSITIONS)}
+
+
+def _obs_xyz(variant, k):
+    return (obs_code(variant, k), float(k), 7.0 + 2.0 * k)
+
+
+def _obs_key(y):
+    """What the model is shown, in a comparable form (a coordinate object by its three components)."""
+    if hasattr(y, "getX") and hasattr(y, "getZ"):
+        return repr(("coords", float(y.getX()), float(y.getY()), float(y.getZ())))
+    return repr(y)
+
+
+def obs_value(variant, k, form="number"):
+    c = obs_code(variant, k)
+    if form == "list-of-one":
+        return [c]
+    if form == "list-of-two":
+        return [c, float(k)]
+    if form == "tuple-of-one":
+        return (c,)
+    if form == "string":
+        return "y%d" % k
+    if form == "nested-list":
+        return [[c]]
+    return c
+
+
 class ModelMisuse(Exception):
     """The implementation queried the model outside its documented contract."""
 
 
-def build(variant, sizes, P, Q, log):
+def build(variant, sizes, P, Q, log, form="number"):
     T = len(sizes)
-    codes = {obs_code(variant, k): k for k in range(T)}
+    if form in POSITION_FORMS:
+        codes = {}
+        for k in range(T):
+            x, y, z = _obs_xyz(variant, k)
+            codes[repr(("coords", x, y, z if form == "position-3d" else 0.0))] = k
+    else:
+        codes = {repr(obs_value(variant, k, form)): k for k in range(T)}
     cand = [alpha.order(variant, [(k, a) for a in range(sizes[k])]) for k in range(T)]
 
     def S(track, k):
         return list(cand[k])
 
     def Pf(s, y, k, track):
-        e = codes.get(y)
+        e = codes.get(_obs_key(y))
         if e is None or s[0] != e or k != e:
             raise ModelMisuse("P queried with state %r, observation %r, epoch %r" % (s, y, k))
         v = P[e][s[1]]
@@ -168,18 +210,23 @@ def build(variant, sizes, P, Q, log):
         x, y = alpha.xy(variant, k, 0)
         obs.append(Obs(ENUCoords(x, y, 0.0), alpha.obstime(t0 + k)))
     track = Track(obs)
-    track.createAnalyticalFeature("obs", [obs_code(variant, k) for k in range(T)])
+    if form in POSITION_FORMS:
+        for j, name in enumerate(["ox", "oy", "oz"]):
+            track.createAnalyticalFeature(name, [_obs_xyz(variant, k)[j] for k in range(T)])
+    else:
+        track.createAnalyticalFeature("obs", [obs_value(variant, k, form) for k in range(T)])
     return HMM(S, Qf, Pf, log=log), track, cand
 
 
 VERBOSE = {"none": MODE_VERBOSE_NONE, "all": 1, "progress": 2, "progress-by-epoch": 3, "default": None}
 
 
-def decode(hmm, track, verbose="none"):
+def decode(hmm, track, verbose="none", form="number"):
     """verbose selects how the decoder reports its progress (the output is muted); it must not change what is decoded."""
+    obs, mode = POSITION_FORMS.get(form, ("obs", MODE_OBS_AS_SCALAR))
     if VERBOSE[verbose] is None:
-        return guard(hmm.estimate, track, "obs", mode=MODE_OBS_AS_SCALAR)
-    return guard(hmm.estimate, track, "obs", mode=MODE_OBS_AS_SCALAR, verbose=VERBOSE[verbose])
+        return guard(hmm.estimate, track, obs, mode=mode)
+    return guard(hmm.estimate, track, obs, mode=mode, verbose=VERBOSE[verbose])
 
 
 def read(track, T):
@@ -287,6 +334,10 @@ def check_model(variant, sizes, flat, ctx):
         for vb in ("all", "progress", "progress-by-epoch", "default"):
             _decode_and_judge("estimate/verbose-" + vb, variant, sizes, P, Q, False, best, case, ctx, vb)
         ctx.oblige("every_verbose_mode")
+        # ... and every shape of stored observation (the model is told when it is asked about a value the track does not hold)
+        for form in OBS_FORMS[1:]:
+            _decode_and_judge("estimate/observation-stored-as-" + form, variant, sizes, P, Q, False, best, case, ctx, "none", form)
+        ctx.oblige("every_observation_shape")
     return nontrivial
 
 
@@ -297,10 +348,10 @@ def _read(track, T):
         return None
 
 
-def _decode_and_judge(site, variant, sizes, P, Q, log, best, case, ctx, verbose="none"):
+def _decode_and_judge(site, variant, sizes, P, Q, log, best, case, ctx, verbose="none", form="number"):
     """One decoding on a fresh track.  -> (hmm, track, sequence, cost) when everything the statement requires holds."""
-    hmm, track, cand = build(variant, sizes, P, Q, log)
-    st, r = decode(hmm, track, verbose)
+    hmm, track, cand = build(variant, sizes, P, Q, log, form)
+    st, r = decode(hmm, track, verbose, form)
     ctx.count("decodings")
     if st != "ok":
         ctx.violation("%s/%s" % (site, "does-not-return" if st == "hang" else "raises"), case, r)
